@@ -27,15 +27,29 @@ func FromForm(f int) ref.Instr {
 // Field draws an operand value in [0,m).
 func Field(m int) *rapid.Generator[int] {
 	return rapid.Custom(func(t *rapid.T) int {
-		switch rapid.IntRange(0, 7).Draw(t, "fk") {
+		switch rapid.IntRange(0, 8).Draw(t, "fk") {
 		case 0, 1, 2, 3:
 			v := rapid.IntRange(-3, 3).Draw(t, "small")
 			return ((v % m) + m) % m
 		case 4, 5:
 			return rapid.IntRange(0, m-1).Draw(t, "uni")
-		default:
+		case 7:
+			return m - 1 - rapid.IntRange(0, 3).Draw(t, "top") % m
+		case 6:
 			b := []int{m / 2, m/2 + 1, m - 1, m/2 - 1, 0, 1}
 			v := rapid.SampledFrom(b).Draw(t, "bnd")
+			return ((v % m) + m) % m
+		default:
+			// neighbourhood of powers of two and of decimal round numbers, both signs
+			k := rapid.IntRange(1, 20).Draw(t, "pow")
+			base := 1 << k
+			if rapid.IntRange(0, 3).Draw(t, "dec") == 0 {
+				base = []int{10, 100, 1000, 10000, 100000, 255, 127, 32767, 65535, 9999, 99999}[rapid.IntRange(0, 10).Draw(t, "decv")]
+			}
+			v := base + rapid.IntRange(-1, 1).Draw(t, "pm")
+			if rapid.Bool().Draw(t, "neg") {
+				v = -v
+			}
 			return ((v % m) + m) % m
 		}
 	})
@@ -51,9 +65,39 @@ var weightedOps = []int{
 	ref.SPL, ref.SPL, ref.SPL, ref.NOP,
 }
 
+// idioms are instructions real warriors are made of (and fast paths are written for)
+var idioms = []ref.Instr{
+	{Op: ref.MOV, Mod: ref.MI, A: 0, B: 1},                               // imp
+	{Op: ref.MOV, Mod: ref.MI, A: 0, B: 2},                               // 
+	{Op: ref.ADD, Mod: ref.MAB, AM: ref.Immediate, A: 4, B: 3},           // dwarf
+	{Op: ref.MOV, Mod: ref.MI, A: 2, BM: ref.BInd, B: 2},                 // dwarf
+	{Op: ref.JMP, Mod: ref.MB, A: -2},                                    // dwarf
+	{Op: ref.JMP, Mod: ref.MB, A: 0},                                     //
+	{Op: ref.SPL, Mod: ref.MB, A: 0},                                     //
+	{Op: ref.SPL, Mod: ref.MB, A: 1},                                     //
+	{Op: ref.SPL, Mod: ref.MB, A: 0, BM: ref.BDec, B: -1},                //
+	{Op: ref.DJN, Mod: ref.MB, A: -1, BM: ref.Immediate, B: 5},           //
+	{Op: ref.DJN, Mod: ref.MF, A: -1, BM: ref.BDec, B: -2},               //
+	{Op: ref.MOV, Mod: ref.MI, AM: ref.BDec, A: -1, BM: ref.BInc, B: 1},  //
+	{Op: ref.MOV, Mod: ref.MI, AM: ref.AInc, A: -1, BM: ref.BInc, B: -2}, // paper
+	{Op: ref.DAT, Mod: ref.MF, AM: ref.Immediate, BM: ref.Immediate},     //
+	{Op: ref.DAT, Mod: ref.MF},                                           // empty core
+	{Op: ref.NOP, Mod: ref.MB},                                           //
+	{Op: ref.SEQ, Mod: ref.MI, A: 10, B: 20},                             // scanner
+	{Op: ref.SNE, Mod: ref.MI, A: 10, B: 20},                             //
+	{Op: ref.JMZ, Mod: ref.MF, A: -1, BM: ref.BDec, B: 5},                //
+	{Op: ref.MOV, Mod: ref.MAB, AM: ref.Immediate, A: 0, B: 1},           //
+}
+
 // Instr draws any of the 7616 forms with fields in [0,m).
 func Instr(m int) *rapid.Generator[ref.Instr] {
 	return rapid.Custom(func(t *rapid.T) ref.Instr {
+		if rapid.IntRange(0, 11).Draw(t, "idiom") == 0 {
+			i := rapid.SampledFrom(idioms).Draw(t, "idiomv")
+			i.A = ((i.A % m) + m) % m
+			i.B = ((i.B % m) + m) % m
+			return i
+		}
 		var i ref.Instr
 		if rapid.IntRange(0, 3).Draw(t, "opk") == 0 {
 			i.Op = rapid.IntRange(0, ref.NumOps-1).Draw(t, "op")
@@ -89,7 +133,10 @@ func CoreSize(max int) *rapid.Generator[int] {
 		case 6, 7:
 			m = rapid.IntRange(17, 64).Draw(t, "m")
 		case 8:
-			m = rapid.SampledFrom([]int{80, 128, 256, 512, 800, 1024, 4096, 8000, 8192, 10007, 55440, 65536}).Draw(t, "m")
+			m = rapid.SampledFrom([]int{80, 128, 256, 512, 800, 1024, 4096, 8000, 8192}).Draw(t, "m")
+			if Rare(t, "bigm", 4) {
+				m = rapid.SampledFrom([]int{10007, 32768, 55440, 65535, 65536}).Draw(t, "mbig")
+			}
 		default:
 			m = rapid.IntRange(3, 300).Draw(t, "m")
 		}
@@ -132,4 +179,17 @@ func Warrior(m, maxLen int) *rapid.Generator[ref.Warrior] {
 		}
 		return ref.Warrior{Code: code, Start: rapid.IntRange(0, n-1).Draw(t, "start")}
 	})
+}
+
+// Rare is true with probability 2^-bits. rapid's integer generators are biased
+// towards the bounds of their range (IntRange(0,499)==0 holds for about one draw
+// in ten), so rare and expensive classes are selected with fair coin flips.
+func Rare(t *rapid.T, label string, bits int) bool {
+	all := true
+	for i := 0; i < bits; i++ {
+		if !rapid.Bool().Draw(t, label) {
+			all = false
+		}
+	}
+	return all
 }
